@@ -345,3 +345,14 @@ def m6_unique_fields(ctx):
 
 
 RULES.append(('M6', m6_unique_fields))
+
+
+def m7_lexical(ctx):
+    """M7 money literals (every code, alias, symbol position) are money tokens (E7b lexical competition model: month stage, regex families in TOKEN_REGEX_PARSER order with first-claim-wins,
+    alias stage; samples generated from the configuration)"""
+    from ..lexrules import run_samples, number_samples, based_samples, money_samples, unit_samples, month_samples, zone_samples, duration_samples, percent_samples, keyword_samples
+    ctx.rule('M7', 'money literals (every code, alias, symbol position) are money tokens', floor=300)
+    run_samples(ctx, 'M7', money_samples(ctx))
+
+
+RULES.append(('M7', m7_lexical))
